@@ -129,6 +129,9 @@ class SArr(PyObj):
     def len_(self, ctx):
         return self.shape_[0]
 
+    def fingerprint_(self):
+        return ('ndarray', len(self.writes), id(self.elem)), []
+
     def _axes(self, ctx, key):
         if not isinstance(key, tuple):
             key = (key,)
